@@ -15,3 +15,4 @@ assumptions = ["user futures are modelled by gates (they complete when the harne
                "the hooked build differs from the shipped one only in where time comes from and in the trace records"]
 harness_timeout = 600
 coq_per_file = 20
+also = ["C03c"]   # parser items that are equal by value
